@@ -1,0 +1,130 @@
+//go:build verif
+// +build verif
+
+package node
+
+// Exported forwarding wrappers used by the external verification harness.
+// Compiled only with -tags verif. Nothing here changes behaviour; every method
+// forwards to the unexported method of the same name.
+
+import (
+	"time"
+
+	hg "github.com/mosaicnetworks/babble/src/hashgraph"
+	"github.com/mosaicnetworks/babble/src/net"
+	_state "github.com/mosaicnetworks/babble/src/node/state"
+	"github.com/mosaicnetworks/babble/src/peers"
+	"github.com/mosaicnetworks/babble/src/proxy"
+	"github.com/sirupsen/logrus"
+)
+
+// VCore wraps the unexported core.
+type VCore struct{ c *core }
+
+// VNewCore forwards to newCore.
+func VNewCore(validator *Validator,
+	peerSet *peers.PeerSet,
+	genesisPeers *peers.PeerSet,
+	store hg.Store,
+	commit proxy.CommitCallback,
+	maintenanceMode bool,
+	logger *logrus.Entry) *VCore {
+	return &VCore{newCore(validator, peerSet, genesisPeers, store, commit, maintenanceMode, logger)}
+}
+
+func (v *VCore) Hg() *hg.Hashgraph             { return v.c.hg }
+func (v *VCore) Validator() *Validator         { return v.c.validator }
+func (v *VCore) Head() string                  { return v.c.head }
+func (v *VCore) Seq() int                      { return v.c.seq }
+func (v *VCore) AcceptedRound() int            { return v.c.acceptedRound }
+func (v *VCore) SetAcceptedRound(r int)        { v.c.acceptedRound = r }
+func (v *VCore) RemovedRound() int             { return v.c.removedRound }
+func (v *VCore) TargetRound() int              { return v.c.targetRound }
+func (v *VCore) LastPeerChangeRound() int      { return v.c.lastPeerChangeRound }
+func (v *VCore) Validators() *peers.PeerSet    { return v.c.validators }
+func (v *VCore) Peers() *peers.PeerSet         { return v.c.peers }
+func (v *VCore) GenesisPeers() *peers.PeerSet  { return v.c.genesisPeers }
+func (v *VCore) SelectorPeers() *peers.PeerSet { return v.c.peerSelector.getPeers() }
+func (v *VCore) TransactionPool() [][]byte     { return v.c.transactionPool }
+func (v *VCore) InternalTransactionPool() []hg.InternalTransaction {
+	return v.c.internalTransactionPool
+}
+func (v *VCore) SelfBlockSignatures() []hg.BlockSignature { return v.c.selfBlockSignatures.Slice() }
+func (v *VCore) Promises() int                            { return len(v.c.promises) }
+
+// Heads returns a copy of the heads map as creator id => event hash ("" for a
+// nil entry).
+func (v *VCore) Heads() map[uint32]string {
+	res := map[uint32]string{}
+	for id, ev := range v.c.heads {
+		if ev == nil {
+			res[id] = ""
+		} else {
+			res[id] = ev.Hex()
+		}
+	}
+	return res
+}
+
+func (v *VCore) Busy() bool                  { return v.c.busy() }
+func (v *VCore) SetHeadAndSeq() error        { return v.c.setHeadAndSeq() }
+func (v *VCore) Bootstrap() error            { return v.c.bootstrap() }
+func (v *VCore) KnownEvents() map[uint32]int { return v.c.knownEvents() }
+func (v *VCore) Sync(fromID uint32, unknownEvents []hg.WireEvent) error {
+	return v.c.sync(fromID, unknownEvents)
+}
+func (v *VCore) RecordHeads() error                  { return v.c.recordHeads() }
+func (v *VCore) AddSelfEvent(otherHead string) error { return v.c.addSelfEvent(otherHead) }
+func (v *VCore) InsertEventAndRunConsensus(e *hg.Event, setWireInfo bool) error {
+	return v.c.insertEventAndRunConsensus(e, setWireInfo)
+}
+func (v *VCore) FastForward(block *hg.Block, frame *hg.Frame) error {
+	return v.c.fastForward(block, frame)
+}
+func (v *VCore) GetAnchorBlockWithFrame() (*hg.Block, *hg.Frame, error) {
+	return v.c.getAnchorBlockWithFrame()
+}
+func (v *VCore) Leave(timeout time.Duration) error { return v.c.leave(timeout) }
+func (v *VCore) ProcessAcceptedInternalTransactions(rr int, receipts []hg.InternalTransactionReceipt) error {
+	return v.c.processAcceptedInternalTransactions(rr, receipts)
+}
+func (v *VCore) EventDiff(known map[uint32]int) ([]*hg.Event, error) { return v.c.eventDiff(known) }
+func (v *VCore) ToWire(events []*hg.Event) ([]hg.WireEvent, error)   { return v.c.toWire(events) }
+func (v *VCore) FromWire(w []hg.WireEvent) ([]hg.Event, error)       { return v.c.fromWire(w) }
+func (v *VCore) ProcessSigPool() error                               { return v.c.processSigPool() }
+func (v *VCore) AddTransactions(txs [][]byte)                        { v.c.addTransactions(txs) }
+
+// AddInternalTransaction forwards to addInternalTransaction and returns a
+// function that polls the promise without blocking.
+func (v *VCore) AddInternalTransaction(tx hg.InternalTransaction) (poll func() (done, accepted bool, acceptedRound int, ps []*peers.Peer)) {
+	p := v.c.addInternalTransaction(tx)
+	return func() (bool, bool, int, []*peers.Peer) {
+		select {
+		case r := <-p.respCh:
+			return true, r.accepted, r.acceptedRound, r.peers
+		default:
+			return false, false, 0, nil
+		}
+	}
+}
+
+// Node wrappers.
+
+func (n *Node) VCore() *VCore                                  { return &VCore{n.core} }
+func (n *Node) VProcessRPC(rpc net.RPC)                        { n.processRPC(rpc) }
+func (n *Node) VGossip(peer *peers.Peer) error                 { return n.gossip(peer) }
+func (n *Node) VPull(peer *peers.Peer) (map[uint32]int, error) { return n.pull(peer) }
+func (n *Node) VPush(peer *peers.Peer, known map[uint32]int) error {
+	return n.push(peer, known)
+}
+func (n *Node) VMonologue() error               { return n.monologue() }
+func (n *Node) VFastForward() error             { return n.fastForward() }
+func (n *Node) VJoin() error                    { return n.join() }
+func (n *Node) VCheckSuspend()                  { n.checkSuspend() }
+func (n *Node) VAddTransaction(tx []byte)       { n.addTransaction(tx) }
+func (n *Node) VTransition(s _state.State)      { n.transition(s) }
+func (n *Node) VInitialUndeterminedEvents() int { return n.initialUndeterminedEvents }
+func (n *Node) VSetBabblingOrCatchingUpState()  { n.setBabblingOrCatchingUpState() }
+func (n *Node) VNextPeer() *peers.Peer          { return n.core.peerSelector.next() }
+func (n *Node) VLockCore()                      { n.coreLock.Lock() }
+func (n *Node) VUnlockCore()                    { n.coreLock.Unlock() }
